@@ -52,7 +52,7 @@ def run(ctx: core.Ctx):
     prereq.pipeline_contracts(ctx)       # glue code (all n), layer-search segment contracts (all inputs), purity of the pipeline functions
     jobs, desc = e2e.build_jobs(ctx)
     results = core.pmap(e2e.eval_state, jobs)
-    e2e.book(ctx, results, ("C04.",), lambda fam, n: GROUND if n <= 3 or (n == 4 and not ctx.quick) else (GROUND if n == 4 and "readout" in fam else BOUNDED))
+    e2e.book(ctx, results, ("C04.", "Q4."), lambda fam, n: GROUND if n <= 3 or (n == 4 and not ctx.quick) else (GROUND if n == 4 and "readout" in fam else BOUNDED))
     ctx.extra["domains"] = desc
     ctx.extra["ground_time_s"] = round(time.time() - t, 2)
     ctx.trust("oracle gate counting / ASAP depth / tableau simulator / LC orbits", "M9 (depth invariant under reversal and single-qubit gates)", "Q3")
